@@ -11,6 +11,7 @@ Graph.tla in C11, Binned.tla in C10.)
   Annotation.tla  gene / transcript / exon tables and their ids from GTF and GFF3 attribute text (datatypes/gtf.py)
   Regex.tla       motif patterns (letters, '.', classes, gaps) rolled over ragged sequences (sequence/string_matcher.py)
   Join.tla        left join of two key-grouped streams (streams/left_join.py)
+  Consensus.tla   single-base variants applied to reference sequences (variants/consensus.py)
   Windows.tla!Index   k-mer index and lookup (sequence/indexing/kmer_indexing.py), on the states of MC_C13
 """
 import os
@@ -227,9 +228,60 @@ def check_kmer_index(v):
     return {"n": n, "nt": [json.dumps(["kidx", rows])] if len(rows) > 1 else [], "bad": bad}
 
 
+def check_consensus(v):
+    """One state of spec/Consensus.tla: the variants applied to the reference sequences."""
+    import bionumpy as bnp
+    from bionumpy.datatypes import SequenceEntry, Variant
+    from bionumpy.variants.consensus import apply_variants, apply_variants_to_sequence
+    L = "ACGT"
+    refs = ["".join(L[x] for x in r) for r in v["refs"]]
+    names = ["c1", "c11", "c2"][:len(refs)]          # one name is a prefix of another
+    vs = v["variants"]
+    want = ["".join(L[x] for x in r) for r in v["consensus"]]
+    bad, n = [], 0
+    if not vs:
+        return {"n": 0, "nt": [], "bad": []}
+
+    def table(order):
+        return Variant([names[vs[i][0] - 1] for i in order], [vs[i][1] for i in order], [refs[vs[i][0] - 1][vs[i][1]] for i in order], [L[vs[i][2]] for i in order])
+    orders = {"as given": list(range(len(vs))), "genome order": sorted(range(len(vs)), key=lambda i: (vs[i][0], vs[i][1]))}
+    for oname, order in orders.items():
+        def run_():
+            entries = SequenceEntry(names, refs)
+            out = apply_variants(entries, table(order))
+            return out.sequence.tolist(), entries.sequence.tolist(), out.name.tolist()
+        o = outcome(run_)
+        n += 1
+        if o != ("ok", (want, refs, names)):
+            bad.append({"what": "apply_variants differs from the references with the alternative base at every variant position (or changed its input)",
+                        "tags": {"spec": "Consensus", "op": "apply_variants", "order": oname}, "vector": v, "case": {"refs": refs, "variants": vs},
+                        "expected": [want, refs], "observed": o})
+    # one contig at a time through the array function
+    for c, ref in enumerate(refs):
+        mine = [i for i in range(len(vs)) if vs[i][0] == c + 1]
+        if not mine:
+            continue
+        def one():
+            seq = bnp.as_encoded_array(ref, bnp.DNAEncoding)
+            out = apply_variants_to_sequence(seq, table(mine))
+            return out.to_string(), seq.to_string()
+        o = outcome(one)
+        n += 1
+        if o != ("ok", (want[c], ref)):
+            bad.append({"what": "apply_variants_to_sequence differs from the reference with the alternative bases (or changed its input)",
+                        "tags": {"spec": "Consensus", "op": "apply_variants_to_sequence"}, "vector": v, "case": {"ref": ref, "variants": [vs[i] for i in mine]},
+                        "expected": [want[c], ref], "observed": o})
+    return {"n": n, "nt": [json.dumps(["cons", v["refs"], vs])] if len(vs) > 1 else [], "bad": bad}
+
+
 def run(ctx):
     quick = ctx.tier == "quick"
     first = None
+    for refs, mv in (("R1", 2), ("R2", 2)) if quick else (("R1", 3), ("R2", 3)):
+        res = ctx.tlc("MC_Consensus", tag="MC_Consensus_" + refs, spec="Spec", workers=4, constants={"Refs": "<- " + refs, "MaxVars": mv},
+                      invariants=["LengthKept", "OnlyVariantPositionsChange", "Emit"], properties=["OneLetter"], coverage=True)
+        ctx.require_actions(res, "MC_Consensus", ["Add"])
+        ctx.absorb(core.pmap(check_consensus, res.vectors, chunk=50))
     res = ctx.tlc("MC_Regex", tag="MC_Regex", spec="Spec", workers=8,
                   constants={"Letters": [1, 2, 3], "NRows": 2, "MaxLen": 3 if quick else 4, "Patterns": "<- PatSmall" if quick else "<- PatSet"},
                   invariants=["RowLocal", "NothingPastTheEnd", "Emit"], properties=["Local"], coverage=True)
@@ -280,6 +332,8 @@ def replay(d):
         r = check_matrix(v)
     elif d["tags"].get("spec") == "Regex":
         r = check_regex(v)
+    elif d["tags"].get("spec") == "Consensus":
+        r = check_consensus(v)
     elif d["tags"].get("spec") == "Join":
         r = check_join(v)
     elif d["tags"].get("spec") == "Windows.Index":
